@@ -5,7 +5,7 @@ from sexpr import enc, hexs, unhex
 from odata_query import ast
 from odata_query.grammar import ODataLexer, ODataParser
 
-PROP_MODS = ["ODataVerif.Tie.ParserTables", "ODataVerif.Props.C05", "ODataVerif.Props.C05Roundtrip", "ODataVerif.Props.C13Text", "ODataVerif.Props.C05Text", "ODataVerif.Props.C10Image"]
+PROP_MODS = ["ODataVerif.Props.Accepted", "ODataVerif.Tie.ParserTables", "ODataVerif.Props.C05", "ODataVerif.Props.C05Roundtrip", "ODataVerif.Props.C13Text", "ODataVerif.Props.C05Text", "ODataVerif.Props.C10Image"]
 
 BIN = [("bool", ast.Or), ("bool", ast.And), ("cmp", ast.Eq), ("cmp", ast.NotEq), ("cmp", ast.Lt), ("cmp", ast.LtE), ("cmp", ast.Gt),
        ("cmp", ast.GtE), ("arith", ast.Add), ("arith", ast.Sub), ("arith", ast.Mult), ("arith", ast.Div), ("arith", ast.Mod), ("in", ast.In)]
@@ -113,6 +113,27 @@ def run(ctx):
         texts = [None] * len(reqs)
     cases = [(txt, w, mode, st) for (w, t, mode, st), txt in zip(meta, texts) if txt is not None]
     cases = list({c[0]: c for c in cases}.values())
+    # the same renderings with the OPERATOR keywords in other letter cases (AND, Or, NOT, EQ, Add, MUL ... - literal keywords keep their spelling, so the tree is the same):
+    # grouping follows the operator, not its spelling
+    def respell_ops(text, fn):
+        out = []
+        toks = list(ODataLexer().tokenize(text))
+        for i, t in enumerate(toks):
+            end = toks[i + 1].index if i + 1 < len(toks) else len(text)
+            raw = text[t.index:end]
+            out.append(fn(raw) if t.type in ("ADD", "SUB", "MUL", "DIV", "MOD", "AND", "OR", "EQ", "NE", "LT", "LE", "GT", "GE", "IN", "NOT") else raw)
+        return "".join(out)
+    extra = []
+    for k, c in enumerate(cases):
+        if ctx.thorough or k % 3 == 0:
+            for fn in (str.upper, str.title, lambda s: "".join(ch.upper() if i % 2 else ch for i, ch in enumerate(s))):
+                try:
+                    v = respell_ops(c[0], fn)
+                except Exception:  # noqa
+                    continue
+                if v != c[0]:
+                    extra.append((v, c[1], c[2] + "+opcase", c[3]))
+    cases += list({c[0]: c for c in extra}.values())
     lx, ps = ODataLexer(), ODataParser()
     common.correspond(ctx, "parse-renderings", cases, real_fn=lambda c: impl.real_parse(c[0], lx, ps),
                       model_reqs=lambda c: driver.req("parse", hexs(c[0])[1:-1]),
